@@ -119,8 +119,10 @@ DoRestore ==
                                                    ELSE @ \cup {[line |-> l, sc |-> ex.sc, run |-> ex.run]}],
                            IF same THEN {}
                            \* a copy whose book differs is not equivalent either: listing it is already a
-                           \* continuation with a different result (C11)
-                           ELSE {Fail("C10", l)} \cup (IF Line.k = "fork" THEN {Fail("C11", l)} ELSE {}))
+                           \* continuation with a different result (C11); a copy whose aggregates are not the sums
+                           \* over the orders it lists breaks C01 ("rebuild from a snapshot or serialized form")
+                           ELSE {Fail("C10", l)} \cup (IF Line.k = "fork" THEN {Fail("C11", l)} ELSE {})
+                                \cup (IF Line.ok /\ ~(Mon_C01(ObsOf(Line.st2)) /\ ApiOk(Line.st2)) THEN {Fail("C01", l)} ELSE {}))
         /\ IF Line.k = "fork" /\ Line.ok
            THEN LET o2 == ObsOf(Line.st2) IN
                 ob2' = o2 /\ fk' = [on |-> TRUE, good |-> good, sameOrder |-> ForkFlags(ob, o2).sameOrder, noStale |-> ForkFlags(ob, o2).noStale]
